@@ -192,6 +192,69 @@ def _in_list(node, stmts):
     return any(node is s for s in stmts)
 
 
+# host calls whose result type is fixed (whatever the arguments): used only to discard `if not isinstance(x, T): raise ...` guards that cannot fire
+_RESULT_TYPE = {'str': 'str', 'repr': 'str', 'format': 'str', 'json.dumps': 'str', 'int': 'int', 'len': 'int', 'float': 'float', 'bool': 'bool', 'list': 'list', 'dict': 'dict', 'sorted': 'list',
+                'tuple': 'tuple', 'math.floor': 'int', 'math.ceil': 'int', 'round': None}
+_METHOD_RESULT_TYPE = {'encode': None, 'join': 'str', 'strip': 'str', 'lstrip': 'str', 'rstrip': 'str', 'lower': 'str', 'upper': 'str', 'replace': 'str', 'sub': 'str', 'isoformat': 'str',
+                       'split': 'list', 'keys': None, 'format': 'str'}
+
+
+def _static_type(func, node, depth=0, mod=None):
+    """the host type every value of the expression has, when that is evident from the expression alone; else None"""
+    if isinstance(node, ast.JoinedStr):
+        return 'str'
+    if isinstance(node, ast.Constant):
+        return type(node.value).__name__ if node.value is not None else None
+    if isinstance(node, (ast.List, ast.ListComp)):
+        return 'list'
+    if isinstance(node, (ast.Dict, ast.DictComp)):
+        return 'dict'
+    if isinstance(node, ast.Call):
+        cn = norm(node.func)
+        if cn in _RESULT_TYPE:
+            return _RESULT_TYPE[cn]
+        if isinstance(node.func, ast.Attribute):
+            m = node.func.attr
+            if m == 'encode' and not node.keywords and len(node.args) == 1:
+                # <JSON encoder instance>.encode(value) -> str: the receiver must evidently be a json.JSONEncoder (sub)class instance
+                recv = node.func.value
+                src = recv
+                if isinstance(recv, ast.Name):
+                    defs = [a.value for a in ast.walk(func) if isinstance(a, ast.Assign) and any(isinstance(t, ast.Name) and t.id == recv.id for t in a.targets)]
+                    if not defs and mod is not None and recv.id in mod.assigns and len(mod.assigns[recv.id]) == 1:
+                        defs = [mod.assigns[recv.id][0]]
+                    src = defs[0] if len(defs) == 1 else (defs[0] if defs and all(isinstance(d, (ast.Call, ast.IfExp)) for d in defs) and all('Encoder' in norm(d) for d in defs) else None)
+                if src is not None and 'Encoder(' in norm(src).replace(' ', ''):
+                    return 'str'
+                return None
+            return _METHOD_RESULT_TYPE.get(m)
+    if isinstance(node, ast.Name) and depth < 2:
+        defs = [a.value for a in ast.walk(func) if isinstance(a, ast.Assign) and any(isinstance(t, ast.Name) and t.id == node.id for t in a.targets)]
+        if node.id in {a.arg for a in func.args.args} or not defs:
+            return None
+        types = {_static_type(func, d, depth + 1, mod) for d in defs}
+        return types.pop() if len(types) == 1 else None
+    return None
+
+
+def _guard_infeasible_by_type(func, raise_node, mod=None):
+    """the raise is the body of `if not isinstance(x, T):` (or of the else of `if isinstance(x, T):`) and every value of x evidently has the host type T"""
+    parent = getattr(raise_node, '_parent', None)
+    if not isinstance(parent, ast.If):
+        return False
+    test = parent.test
+    in_body = raise_node in parent.body
+    neg = isinstance(test, ast.UnaryOp) and isinstance(test.op, ast.Not)
+    call = test.operand if neg else test
+    if not (isinstance(call, ast.Call) and isinstance(call.func, ast.Name) and call.func.id == 'isinstance' and len(call.args) == 2):
+        return False
+    if (neg and not in_body) or (not neg and in_body):
+        return False
+    names = [norm(x) for x in (call.args[1].elts if isinstance(call.args[1], ast.Tuple) else [call.args[1]])]
+    t = _static_type(func, call.args[0], 0, mod)
+    return t is not None and t in names
+
+
 class Effects:
     """primitive table + propagation"""
 
@@ -269,7 +332,7 @@ class Effects:
             elif isinstance(n, ast.Raise) and n.exc is not None:
                 exc = n.exc.func if isinstance(n.exc, ast.Call) else n.exc
                 name = exc.id if isinstance(exc, ast.Name) else (exc.attr if isinstance(exc, ast.Attribute) else None)
-                if name:
+                if name and not _guard_infeasible_by_type(func, n, mod):
                     out.append((n, name, 'explicit raise'))
         if self.extra:
             out.extend(self.extra(mod, func, vv))
